@@ -27,17 +27,31 @@ ASSUMPTIONS = [
 FLOORS = {"quick": {"wrap-crossed": 150, "fragmented": 100, "long-run": 1}, "thorough": {"wrap-crossed": 5000, "long-run": 8}}
 
 
-def check_history(case):
+def check_history(case, strict=False):
+    with harness.entropy(case.get("entropy")):
+        return _check_history(case, strict)
+
+
+def _check_history(case, strict):
     from pycomm3.exceptions import PycommError
     discs, cls = [], set()
     p, mem, tgt = S.build_target(case)
     plc = S.open_driver(S.Run(), tgt, case)
     if plc is None:
-        return [], False, ["open-failed"]
+        # the upload itself may already have tripped over repeated sequence counts (the target replays its previous reply)
+        harness.uninstall()
+        return [Disc(code, detail + " (during open / tag upload)") for prop, code, detail in tgt.audits if prop == "C17"], False, ["open-failed"]
     try:
         # make sure the connection exists, then set the phase
-        plc.generic_message(service=0x0E, class_code=1, instance=1, attribute=1, connected=True)
-        conn = next(iter(tgt.connections.values()))
+        def sync():
+            try:
+                plc.generic_message(service=0x0E, class_code=1, instance=1, attribute=1, connected=True)
+            except PycommError as e:
+                discs.append(Disc(f"strict.generic.raises.{type(e).__name__}", f"connected generic message raised {e!r} <- {e.__cause__!r} near the counter wrap"[:300]))
+        sync()
+        conn = next(iter(tgt.connections.values()), None)
+        if conn is None:
+            return discs, False, ["no-connection"]
         start_n = conn["n"]
         cur = next(plc._sequence)
         target_val = (65535 - case["offset"]) % 65536 or 1
@@ -46,7 +60,7 @@ def check_history(case):
             next(plc._sequence)
         # re-synchronise: the fast-forward consumed values without sending anything, so send one message with the
         # new phase before the history starts (otherwise the first message could equal the pre-fast-forward one)
-        plc.generic_message(service=0x0E, class_code=1, instance=1, attribute=1, connected=True)
+        sync()
         tgt.audits[:] = [a for a in tgt.audits if a[0] != "C17"]
         seqs = []
         for op in case["ops"]:
@@ -60,8 +74,10 @@ def check_history(case):
                     plc.write(*pairs) if len(pairs) > 1 else plc.write(pairs[0][0], pairs[0][1])
                 elif op["op"] == "upload":
                     plc.get_tag_list(program="*")
-            except PycommError:
-                pass
+            except PycommError as e:
+                if strict and op["op"] in ("read", "write"):
+                    # read / write answer with Tags; near the counter wrap they must not start raising
+                    discs.append(Disc(f"strict.{op['op']}.raises.{type(e).__name__}", f"{op['op']} raised {e!r} <- {e.__cause__!r} (counter phase offset {case['offset']})"[:400]))
             except harness.StepBudgetExceeded:
                 discs.append(Disc("nonterminating", f"{op['op']} kept sending requests (a replayed reply after a repeated sequence count never ends the transfer)"))
                 harness.CURRENT["budget"] = 10_000
@@ -137,7 +153,8 @@ def histories(draw):
             ops.append({"op": k, "reqs": S.dedupe_overlaps(p, draw(Q.write_requests(p, max_size=6)))})
         else:
             ops.append({"op": k})
-    return {"pd": pd, "seeds": seeds, "cfg": cfg, "ops": ops, "offset": draw(st.one_of(st.integers(0, 60), st.integers(0, 400)))}
+    return {"pd": pd, "seeds": seeds, "cfg": cfg, "ops": ops, "offset": draw(st.one_of(st.integers(0, 60), st.integers(0, 400))),
+            "entropy": draw(st.sampled_from(["os", "os", "os", "min", "max"]))}
 
 
 def sample_of(c):
